@@ -26,6 +26,36 @@ CLAIMED = {
     'C16': ('exploration', 'reference-model monitor: defining-class names observed per attribute access vs CPython and an in-file C3/lookup model over all small class DAGs',
             'All class DAGs up to the bound with sampled placements of attributes/methods/classmethods/staticmethods are built on the real interpreter; every instance/class read, write/delete visibility, isinstance and MRO acceptance/rejection is compared with CPython and a second C3 model.',
             'Hierarchies bounded (n<=4 exhaustive quick, n=5 exhaustive / n=6 sampled thorough); metaclasses, super(), property, __slots__ not covered.', '6/C16'),
+    'C01': ('exploration', 'reference-model monitor: evaluation log + value of generated expressions/assignments vs CPython, with discriminating operand values computed from all alternative groupings',
+            'All operator pairs (and sampled/all triples), bounded expression trees and assignment forms over self-logging operands run on the real compiler+VM; log, value and exception type must equal CPython\'s.',
+            'Version-stable fragment only (DESIGN 3.1); trees bounded in depth; no user-defined operator overloading (absent in gpython).', '6/C01'),
+    'C03': ('exploration', 'reference-model monitor: stdout / compile-time SyntaxError / NameError family vs CPython over enumerated scope nestings, plus repeat-compile agreement of code dumps (analysis-order independence)',
+            'All depth-1 scope nestings x name roles (depth 2 sampled/exhaustive), classic closure patterns in six alpha-renamed spellings; every program is recompiled 8/64 times and the dumps must agree.',
+            'CPython 3.11 scoping equals 3.4 on the generated fragment; name mangling, super/__class__ not covered.', '6/C03'),
+    'C08': ('exploration', 'self-reference monitor (observation in a polluted process vs solo observation in a fresh process) + Go race detector over concurrent contexts with yields injected at instruction boundaries (hook H2)',
+            'Every (polluter, observer) pair runs in its own process: observer in a fresh context after the polluter; N contexts run concurrently under -race with a shared code object, REPL sessions and a Go module imported by all; concurrent compilation.',
+            'Interleavings are those the Go scheduler produced with the injected yields; process-wide resources shared by nature are excluded.', '6/C08'),
+    'C10': ('exploration', 'crash monitor: recover() around every call of every builtin / type-dict callable / operator / compiled snippet over a value universe, worker exit status with progress-log attribution',
+            'Every callable reachable from builtins and from the attribute table of each universe value\'s type, every operator entry point and 143 source snippets are applied to all argument tuples of arity 0-2 (3 over a sub-universe); any Go panic or process abort is a violation; pure CPU timeouts are inconclusive.',
+            'Universe of 68 values; huge-size arguments only sampled in quick.', '6/C10'),
+    'C13': ('exploration', 'reference-model monitor: first-principles sequence model cross-validated per case against CPython, over an exhaustive (type, length, start, stop, step) lattice via the Go API and compiled source',
+            'All index/slice/set-slice/del-slice/concat/repeat/compare/contains/iteration operations on str, list, tuple, range, bytes of length 0..6 over the index lattice; operands must be unchanged and results must not alias.',
+            'Lengths > 6 only in a random tail; six unimplemented feature pairs are skipped via a re-probed allowlist.', '6/C13'),
+    'C14': ('exploration', 'reference-model monitor: string operations as code-point lists vs CPython over all short strings of a mixed-width alphabet; Go-level deep equality for repr->eval round trips',
+            'All strings up to length 3 (4 thorough) plus sampled longer ones x every named operation and argument position; repr round trip of str, bytes, ints, floats and nested tuples/lists judged on encodings.',
+            'Case mapping and Unicode-database dependent behaviour excluded.', '6/C14'),
+    'C15': ('exploration', 'reference-model monitor: bit-exact float results / exception types vs CPython over a lattice of special doubles x boundary ints, plus seeded random bit patterns',
+            'Every float and mixed operator, conversion, comparison, round, text form and folding builtin on the lattice; documented tolerances: ** within 1 ulp on inexact cases, complex division within 2 ulp.',
+            'libm-dependent results compared with tolerance; math module functions excluded.', '6/C15'),
+    'C17': ('exploration', 'reference-model monitor: state of every pool member after every step of generated container histories vs CPython executing the same history',
+            'Exhaustive short histories and seeded random histories (to length 12) over aliased/copied pools of lists, string-keyed dicts and sets, including self-operand forms and list mutation during iteration/sort.',
+            'Only methods gpython provides; dict/set mutation during iteration excluded.', '6/C17'),
+    'C19': ('exploration', 'reference-model monitor: per-module execution logs, identities and import * name sets vs CPython run on the same module tree; exactly-once counters for harness-registered Go modules (mode gomod)',
+            'Fixed graph shapes (chains, diamonds, cycles, self-import) x 8 statement forms x import orders, random digraphs, failing imports followed by further work; Go modules across several contexts.',
+            'Packages/relative imports, .pyc and sys.modules manipulation not covered.', '6/C19'),
+    'C20': ('exploration', 'self-reference monitor: REPL fed one physical line at a time (recording UI, captured stdout/stderr, globals snapshot per line; mode repl) vs the same statements compiled whole in single mode; generator-known statement boundaries for the prompt rule; CPython displayhook for echo/_',
+            'Generated sessions of simple/compound/multi-line/erroneous statements; each statement must run exactly once, no later than its terminating blank line; prompts, echo, _ and error recovery are judged.',
+            'Terminal integration (liner) and completion not covered.', '6/C20'),
 }
 
 PENDING_REASON = 'check not built yet in this round (the design in DESIGN.md applies; nothing is claimed until the monitor exists and is silent on the unchanged tree)'
